@@ -56,7 +56,72 @@ class Stall:
         return {"scenario": c["item"], "observed": o}
 
 
-PARTS = [ConcPart(PROP, 2), Stall]
+
+
+class Stress:
+    """random concurrent mix on one real manager; built with the race detector in the thorough tier"""
+    NAME = "stress"
+    IMPORTS = "From Xds Require Import Model.Base Model.Conc Model.ConcCheck."
+    FN = "stress_check"
+    TY = "stress_case"
+    EXTRA_ROUNDS = 0
+    TIER = "quick"
+
+    @classmethod
+    def gen_cases(cls, rng, tier):
+        cls.TIER = tier
+        n, ms = (2, 1500) if tier == "quick" else (6, 8000)
+        return [{"seed": rng.randrange(1 << 30), "millis": ms, "workers": rng.choice([3, 4, 6])} for _ in range(n)]
+
+    @classmethod
+    def run_impl(cls, cases):
+        import json, subprocess, os
+        from concurrent.futures import ThreadPoolExecutor
+        from . import core
+        race = cls.TIER != "quick"
+        binary = os.path.join(core.BIN, "harness")
+        if race:
+            binary = os.path.join(core.BIN, "harness_race")
+            with core.Lock("harness"):
+                rc, out = core.sh(["go", "build", "-race", "-tags", "verif", "-o", binary, "."], cwd=os.path.join(core.VERIF, "harness"), env=core.GOENV, timeout=1200)
+            if rc != 0:
+                raise core.HarnessError("race build failed: " + out[-1500:])
+
+        def one(c):
+            p = subprocess.run([binary, "stress"], input=json.dumps({"id": c["id"], "seed": c["seed"], "millis": c["millis"], "workers": c["workers"]}) + "\n",
+                               env=dict(core.GOENV, GORACE="halt_on_error=0"), stdout=subprocess.PIPE, stderr=subprocess.PIPE, text=True, timeout=c["millis"] / 1000 + 120)
+            o = {}
+            for line in p.stdout.splitlines():
+                if line.strip().startswith("{"):
+                    o = json.loads(line)
+            reports = p.stderr.split("WARNING: DATA RACE")[1:]
+            o["races"] = len(reports)
+            o["race_reports"] = ["WARNING: DATA RACE" + r[:2500] for r in reports[:3]]
+            o["race_detector"] = race
+            if p.returncode != 0 and not reports:
+                o["unfinished"] = True
+                o["stderr_tail"] = p.stderr[-1500:]
+            return c["id"], o
+        with ThreadPoolExecutor(max_workers=3) as ex:
+            return dict(ex.map(one, cases))
+
+    @staticmethod
+    def to_gallina(c, o):
+        from .core import gN
+        return "Build_stress_case %s %s %s %s" % (gN(o.get("races", 0)), gN(o.get("bad", 0)), "true" if o.get("unfinished", True) else "false", gN(o.get("lookups", 0)))
+
+    @staticmethod
+    def nontrivial(c, o):
+        return c["seed"] if o.get("lookups", 0) > 100 and o.get("responses", 0) > 10 else None
+
+    @staticmethod
+    def describe(c, o):
+        return {"run": {k: c[k] for k in ("seed", "millis", "workers")}, "observed": {k: v for k, v in o.items() if k != "race_reports"},
+                "race_reports": o.get("race_reports", [])[:1]}
+
+
+PARTS = [ConcPart(PROP, 2), Stall, Stress]
+COQCHK_EXTRA = ("Xds.Properties.C07Skel",)
 
 
 # ---- lock skeleton: translator tie (regenerated from /repo on every run) ----
